@@ -243,3 +243,86 @@ Proof.
     destruct (kfind s_oid o' (sheap s)); [reflexivity|]. cbn [kfind new_scell s_oid]. fold o.
     destruct (N.eqb_spec o o'); [congruence | reflexivity].
 Qed.
+
+(* ---- the event's own Stream object records the reported status ---- *)
+Definition Ss (soid : N) (s s' : mstate) : Prop :=
+  forall x, get_s soid s = Some x -> exists x', get_s soid s' = Some x' /\ s_state x' = s_state x.
+
+Lemma Ss_refl soid s : Ss soid s s.
+Proof. intros x G. eauto. Qed.
+Lemma Ss_trans soid a b c : Ss soid a b -> Ss soid b c -> Ss soid a c.
+Proof. intros A B x G. destruct (A x G) as [x1 [G1 E1]]. destruct (B x1 G1) as [x2 [G2 E2]]. exists x2. split; congruence. Qed.
+Lemma Ss_put_c soid c s : Ss soid s (put_c c s).
+Proof. intros x G. eauto. Qed.
+Lemma Ss_put_circ soid x ci s : get_s soid s = Some x -> Ss soid s (put_s (set_circ x ci) s).
+Proof.
+  intros G x0 G0. destruct (get_s_oid _ _ _ G) as [Hso _]. exists (set_circ x ci).
+  rewrite get_s_put_s. cbn [set_circ s_oid]. rewrite Hso, N.eqb_refl. split; [reflexivity|]. cbn. congruence.
+Qed.
+
+Lemma unlist_Ss s coid soid s' : unlist s coid soid = Some s' -> Ss soid s s'.
+Proof.
+  unfold unlist. destruct (get_c coid s) as [c|]; [|discriminate].
+  destruct (memN soid (c_streams c)); [|discriminate]. intros [= <-]. apply Ss_put_c.
+Qed.
+Lemma detach_Ss s soid s' : detach s soid = Some s' -> Ss soid s s'.
+Proof.
+  unfold detach. destruct (get_s soid s) as [x|] eqn:G; [|discriminate].
+  destruct (s_circ x) as [coid|]; [|intros [= <-]; apply Ss_refl].
+  destruct (unlist s coid soid) as [s1|] eqn:U; [|discriminate]. intros [= <-].
+  intros x0 G0. rewrite G in G0. injection G0 as <-. destruct (get_s_oid _ _ _ G) as [Hso _].
+  exists (set_circ x None). rewrite get_s_put_s. cbn [set_circ s_oid]. rewrite Hso, N.eqb_refl. split; reflexivity.
+Qed.
+Lemma detach_soft_Ss s soid s' : detach_soft s soid = Some s' -> Ss soid s s'.
+Proof.
+  unfold detach_soft. destruct (get_s soid s) as [x|] eqn:G; [|discriminate].
+  destruct (s_circ x) as [coid|]; [|intros [= <-]; apply Ss_refl].
+  destruct (get_c coid s) as [c|]; [|discriminate]. intros [= <-].
+  intros x0 G0. rewrite G in G0. injection G0 as <-. destruct (get_s_oid _ _ _ G) as [Hso _].
+  exists (set_circ x None). rewrite get_s_put_s. cbn [set_circ s_oid]. rewrite Hso, N.eqb_refl. split; reflexivity.
+Qed.
+Lemma attach_Ss s soid cid s' : attach s soid cid = Some s' -> Ss soid s s'.
+Proof.
+  unfold attach. destruct (get_s soid s) as [x|] eqn:G; [|discriminate].
+  destruct (s_circ x) as [c0|]; [intros [= <-]; apply Ss_refl|].
+  destruct (kfind fst cid (circuits s)) as [p|]; [|discriminate].
+  destruct (get_c (snd p) s) as [c|]; [|discriminate]. intros [= <-].
+  intros x0 G0. rewrite G in G0. injection G0 as <-. destruct (get_s_oid _ _ _ G) as [Hso _].
+  exists (set_circ x (Some (snd p))). rewrite get_s_put_s. cbn [set_circ s_oid]. rewrite Hso, N.eqb_refl. split; reflexivity.
+Qed.
+
+Lemma stream_tail_state s1 x o id st cid host port kw s' :
+  get_s o s1 = Some x -> stream_tail s1 o id st cid host port kw = Some s' ->
+  exists x', get_s o s' = Some x' /\ s_state x' = Some st.
+Proof.
+  intros G. unfold stream_tail. rewrite G. set (x1 := upd_stream x st host port kw).
+  destruct (upd_stream_same x st host port kw) as [Ho _]. fold x1 in Ho. destruct (get_s_oid _ _ _ G) as [Hso _].
+  assert (G1 : get_s o (put_s x1 s1) = Some x1) by (rewrite get_s_put_s, Ho, Hso; now rewrite N.eqb_refl).
+  assert (E1 : s_state x1 = Some st).
+  { unfold x1, upd_stream. destruct (kw_get K_SOURCE_ADDR kw); destruct (s_host x); reflexivity. }
+  assert (Fin : forall s2, Ss o (put_s x1 s1) s2 -> exists x', get_s o s2 = Some x' /\ s_state x' = Some st).
+  { intros s2 H. destruct (H x1 G1) as [x' [A B]]. exists x'. split; congruence. }
+  destruct st.
+  - destruct (cid =? 0); intros D; apply Fin; [eapply detach_soft_Ss | eapply attach_Ss]; eauto.
+  - destruct (cid =? 0); intros D; apply Fin; [eapply detach_soft_Ss | eapply attach_Ss]; eauto.
+  - destruct (cid =? 0); intros D; apply Fin; [eapply detach_soft_Ss | eapply attach_Ss]; eauto.
+  - destruct (cid =? 0); intros D; apply Fin; [eapply detach_soft_Ss | eapply attach_Ss]; eauto.
+  - intros D. apply Fin. eapply detach_Ss; eauto.
+  - destruct (detach (put_s x1 s1) o) as [s2|] eqn:D; [|discriminate]. intros [= <-].
+    change (get_s o (with_streams s2 (kdel fst id (streams s2)))) with (get_s o s2). apply Fin. eapply detach_Ss; eauto.
+  - destruct (detach (put_s x1 s1) o) as [s2|] eqn:D; [|discriminate]. intros [= <-].
+    change (get_s o (with_streams s2 (kdel fst id (streams s2)))) with (get_s o s2). apply Fin. eapply detach_Ss; eauto.
+Qed.
+
+Lemma stream_event_state s id st cid host port kw s' : WF s -> stream_event s id st cid host port kw = Some s' ->
+  let o := match kfind fst id (streams s) with Some p => snd p | None => N.of_nat (length (sheap s)) end in
+  exists x', get_s o s' = Some x' /\ s_state x' = Some st.
+Proof.
+  intros W. rewrite stream_event_tail. unfold ensure_stream.
+  destruct (kfind fst id (streams s)) as [p|] eqn:F; cbv zeta.
+  - destruct (kfind_Some fst _ _ _ F) as [Ep Hp]. destruct (wf_slive _ W p Hp) as [x [G I]].
+    intros T. exact (stream_tail_state s x (snd p) id st cid host port kw s' G T).
+  - change (with_streams (with_sheap s (sheap s ++ [new_scell (N.of_nat (length (sheap s))) id]))
+                         (streams s ++ [(id, N.of_nat (length (sheap s)))])) with (grow_s s id).
+    intros T. exact (stream_tail_state (grow_s s id) _ _ id st cid host port kw s' (get_s_grow_new s id W) T).
+Qed.
